@@ -31,6 +31,7 @@ class P:
             'tok': (f'{n}', 'Tok'),
             'arr': (f'{n}', '[u8; 2]'),
             'raw': ('r#type', 'u32'),
+            'rawpat': ('N(r#match)', 'N'),
             'fname': (fn_name, 'u32'),
             'gen': (f'{n}', 'T'),
             'atpat': (f'{n} @ 0..=u32::MAX', 'u32'),
@@ -54,6 +55,8 @@ class P:
             return f'((({n}[0] as u64) << 8) | ({n}[1] as u64))'
         if k == 'raw':
             return '(r#type as u64)'
+        if k == 'rawpat':
+            return '(r#match as u64)'
         if k == 'fname':
             return f'({fn_name} as u64)'
         if k == 'gen':
@@ -76,7 +79,7 @@ class P:
             return f'let v{i}: {k} = kani::any();'
         if k == 'tup':
             return f'let v{i}: (u16, u16) = (kani::any(), kani::any());'
-        if k == 'n1':
+        if k in ('n1', 'rawpat'):
             return f'let v{i}: N = N(kani::any());'
         if k == 'n2':
             return f'let v{i}: N2 = N2(kani::any(), kani::any());'
@@ -107,7 +110,7 @@ class P:
             return None
         if k == 'tup':
             return f'(((v{i}.0 as u64) << 16) | (v{i}.1 as u64))'
-        if k in ('n1', 'n2'):
+        if k in ('n1', 'n2', 'rawpat'):
             return f'(v{i}.0 as u64)'
         if k == 's':
             return f'(v{i}.a as u64)'
@@ -409,6 +412,11 @@ def c01_corpus(tier, seed):
         progs.append(single_fn_program(pid(), FnSpec('f1', 'impl', [P('u32'), P('fname'), P(kind)])))
     progs.append(single_fn_program(pid(), FnSpec('f1', 'nodeps', [P('tup'), P('fname')]), opts='no_deps'))
     progs.append(module_program(pid(), [FnSpec('fa', 'gen', [P('n1'), P('fname')], fn_id=1), FnSpec('fb', 'gen', [P('fname'), P('wild')], fn_id=2)]))
+    # raw identifiers: as the only binding of a pattern, as a plain parameter next to a pattern, and a fn with a raw name that has
+    # a parameter spelled like it (the rename `<fn>_` must be a valid identifier)
+    progs.append(single_fn_program(pid(), FnSpec('f1', 'bound', [P('rawpat'), P('u32')]), desc='raw identifier as the only binding of a pattern'))
+    progs.append(single_fn_program(pid(), FnSpec('f1', 'impl', [P('raw'), P('tup'), P('u32')]), desc='raw identifier parameter next to a pattern'))
+    progs.append(single_fn_program(pid(), FnSpec('r#match', 'bound', [P('u32'), P('fname')]), desc='fn with a raw name and a parameter spelled like it'))
     # an entraited fn declared in a block scope (fn body), a parameter spelled like the fn, and a module-level fn of the same name
     # and signature: the method must reach the local fn (`self::name` would reach the other one)
     progs.append(block_scope_program(pid()))
